@@ -331,6 +331,11 @@ fn shrink(rng: &mut Rng, v: &Val) -> Val {
             for x in a.iter() {
                 if rng.chance(1, 2) {
                     r.push(shrink(rng, x));
+                    // a contained array may well be LONGER than the container: duplicates, and
+                    // several parts witnessed by one and the same element (`["foobar"]` contains `["foo","bar"]`)
+                    while rng.chance(1, 3) && r.len() < 12 {
+                        r.push(shrink(rng, x));
+                    }
                 }
             }
             if rng.chance(1, 4) {
@@ -628,6 +633,287 @@ pub fn gen(tier: &str) {
             bin(&mut p, &mut out, "rtrimstr", "rtrimstr($x)", a, b);
         }
     }
+    gen2(thorough, &mut rng, &mut p, &mut out);
+    println!("END");
+}
+
+
+// ------------------------------------------------------------------ round 2: filters that are jq definitions
+
+/// outputs of a filter argument as tokens: `S<m> v1 … vm` then `.` or `X <error value>`
+fn stream_tokens(items: &[Item]) -> String {
+    let vals: Vec<String> = items.iter().filter_map(|i| if let Item::Val(v) = i { Some(vx::enc(v)) } else { None }).collect();
+    let n = items.iter().take_while(|i| matches!(i, Item::Val(_))).count();
+    let tail = match items.get(n) {
+        None => ".".to_string(),
+        Some(Item::Err(e)) => format!("X {}", vx::enc(e)),
+        Some(_) => "X N".to_string(),
+    };
+    let mut t = vec![format!("S{n}")];
+    t.extend(vals.into_iter().take(n));
+    t.push(tail);
+    t.join(" ")
+}
+
+/// function table `F<n> (input stream)*` of the real filter `f` on a domain
+fn fn_table(p: &mut Progs, f: &str, dom: &[Val]) -> String {
+    let mut seen = std::collections::HashSet::new();
+    let mut rows = vec![];
+    for x in dom {
+        let k = vx::enc(x);
+        if seen.insert(k.clone()) {
+            rows.push(format!("{k} {}", stream_tokens(&p.run(f, x))));
+        }
+    }
+    format!("F{} {}", rows.len(), rows.join(" ")).trim_end().to_string()
+}
+
+fn values_of(v: &Val) -> Vec<Val> {
+    match v {
+        Val::Arr(a) => a.iter().cloned().collect(),
+        Val::Obj(o) => o.values().cloned().collect(),
+        _ => vec![],
+    }
+}
+
+/// the values `walk(f)` applies `f` to (children first; arrays take all outputs, objects the first)
+fn walk_dom(p: &mut Progs, f: &str, v: &Val, dom: &mut Vec<Val>) -> Vec<Item> {
+    let v2 = match v {
+        Val::Arr(a) => {
+            let mut out = vec![];
+            for x in a.iter() {
+                for it in walk_dom(p, f, x, dom) {
+                    match it {
+                        Item::Val(y) => out.push(y),
+                        other => return vec![other],
+                    }
+                }
+            }
+            arr(out)
+        }
+        Val::Obj(o) => {
+            let mut out = vec![];
+            for (k, x) in o.iter() {
+                match walk_dom(p, f, x, dom).into_iter().next() {
+                    None => {}
+                    Some(Item::Val(y)) => out.push((k.clone(), y)),
+                    Some(other) => return vec![other],
+                }
+            }
+            obj(out)
+        }
+        v => v.clone(),
+    };
+    dom.push(v2.clone());
+    p.run(f, &v2)
+}
+
+const MAP_FILTERS: &[&str] = &[".", "empty", "., .", "[.]", "if isnumber then . + 1 else . end", "select(. != null)", "if . == 2 then error else . end",
+    "tojson", "if isarray then length else . end", "numbers += 1", "(., error)", ".[0]?", "type", "values", "if isobject then del(.a) else . end",
+    "if . == false then empty else . end", "not"];
+const ENTRY_FILTERS: &[&str] = &[".", ".value |= [.]", "select(.value != null)", ".key |= tojson", "empty", "., .", "{key: .value, value: .key}",
+    ".key = false", ".value = false", "del(.key)", "del(.value)", "{k: .key, v: .value}", ".value", "select(.value)", "if .value == 2 then error else . end", ".key |= not"];
+const PATH_PREDS: &[&str] = &["true", "isnumber", "isobject, isarray", "false", "null", ". == 1", "error", "if isnumber then error else true end", "empty",
+    "isarray", "., .", "length > 1"];
+const DEL_FREE: &[&str] = &[".a", ".[0]", ".[-1]", ".b?", ".[1]"];
+
+/// objects whose keys and values stress `false`, `null` and non-string keys
+fn gen_obj_falsy(rng: &mut Rng) -> Val {
+    let keys = [s("a"), s("b"), s("key"), s("value"), s("k"), s("v"), Val::Bool(false), Val::Null, Val::Bool(true), int(0), int(1), float(1.5),
+                arr(vec![]), arr(vec![int(1)]), obj(vec![]), s("")];
+    let vals = [Val::Bool(false), Val::Null, Val::Bool(true), int(0), s(""), arr(vec![]), obj(vec![]), arr(vec![Val::Bool(false)]),
+                obj(vec![(s("key"), Val::Bool(false))]), int(1), s("value")];
+    let n = rng.below(6);
+    obj((0..n).map(|_| (rng.pick(&keys).clone(), rng.pick(&vals).clone())).collect())
+}
+
+fn gen2(thorough: bool, rng: &mut Rng, p: &mut Progs, out: &mut Out) {
+    let scale = if thorough { 8 } else { 1 };
+    // ---- entries on objects with false / null values and non-string keys (directed + random)
+    let mut objs = vec![
+        obj(vec![(s("a"), Val::Bool(false)), (s("b"), Val::Null), (s("c"), int(0)), (s("d"), Val::Bool(true))]),
+        obj(vec![(Val::Bool(false), int(1)), (Val::Null, int(2)), (int(0), int(3)), (arr(vec![int(1)]), int(4)), (obj(vec![]), int(5))]),
+        obj(vec![(Val::Bool(false), Val::Bool(false))]),
+        obj(vec![(Val::Null, Val::Null)]),
+        obj(vec![(s("key"), Val::Bool(false)), (s("value"), Val::Null)]),
+        obj(vec![(float(1.5), Val::Bool(false)), (arr(vec![]), Val::Null), (s(""), Val::Bool(false))]),
+    ];
+    for _ in 0..300 * scale {
+        objs.push(gen_obj_falsy(rng));
+    }
+    for v in &objs {
+        un(p, out, "to_entries", "to_entries", v);
+        un(p, out, "with_entries_id", "with_entries(.)", v);
+        // `to_entries | from_entries` through the model of `from_entries` on the real entries
+        if let Some(Item::Val(es)) = p.run("to_entries", v).first() {
+            un(p, out, "from_entries", "from_entries", es);
+        }
+    }
+    // entry lists with falsy keys / values, missing fields, and jq's alternative field names (not read by jaq)
+    for _ in 0..300 * scale {
+        let len = rng.below(5);
+        let keys = [s("a"), s("b"), Val::Bool(false), Val::Null, int(0), arr(vec![]), Val::Bool(true)];
+        let vals = [Val::Bool(false), Val::Null, int(1), s("x"), Val::Bool(true)];
+        let es: Vec<Val> = (0..len)
+            .map(|_| {
+                let (k, v) = (rng.pick(&keys).clone(), rng.pick(&vals).clone());
+                match rng.below(10) {
+                    0 => obj(vec![(s("k"), k), (s("v"), v)]),
+                    1 => obj(vec![(s("key"), k), (s("v"), v)]),
+                    2 => obj(vec![(s("k"), s("other")), (s("key"), k), (s("value"), v), (s("v"), int(7))]),
+                    3 => obj(vec![(s("name"), k), (s("Value"), v)]),
+                    4 => obj(vec![(s("value"), v)]),
+                    _ => obj(vec![(s("key"), k), (s("value"), v)]),
+                }
+            })
+            .collect();
+        un(p, out, "from_entries", "from_entries", &arr(es));
+    }
+
+    // ---- inputs for the filters below
+    let mut vals: Vec<Val> = nonnum_pool();
+    vals.extend(elem_pool());
+    vals.extend(objs.iter().take(12).cloned());
+    for i in 0..150 * scale {
+        vals.push(match i % 4 {
+            0 => gen_val(rng, 3),
+            1 => arr(gen_array(rng)),
+            2 => gen_obj(rng, 2),
+            _ => gen_nested(rng, 3),
+        });
+    }
+
+    // ---- map / map_values / walk / all / any with the real filter as a table
+    for v in &vals {
+        let f = *rng.pick(MAP_FILTERS);
+        let g = *rng.pick(MAP_FILTERS);
+        for f in [f, g] {
+            let tab = fn_table(p, f, &values_of(v));
+            let real = show_one(&p.run(&format!("map({f})"), v));
+            out.corr("m", format!("c12.map {} {tab}", vx::enc(v)), real, format!("{v} | map({f})"));
+            let real = show_one(&p.run(&format!("map_values({f})"), v));
+            out.corr("m", format!("c12.map_values {} {tab}", vx::enc(v)), real, format!("{v} | map_values({f})"));
+            let real = show_one(&p.run(&format!("all({f})"), v));
+            out.corr("m", format!("c12.all {} {tab}", vx::enc(v)), real, format!("{v} | all({f})"));
+            let real = show_one(&p.run(&format!("any({f})"), v));
+            out.corr("m", format!("c12.any {} {tab}", vx::enc(v)), real, format!("{v} | any({f})"));
+            let mut dom = vec![];
+            walk_dom(p, f, v, &mut dom);
+            let tab = fn_table(p, f, &dom);
+            // a diverging `walk` (stack overflow) kills the process: announce the case first
+            println!("PRE\t{} | walk({f})", v.to_string().replace(['\t', '\n'], " "));
+            let real = show_items(&p.run(&format!("walk({f})"), v));
+            out.corr("w", format!("c12.walk {} {tab}", vx::enc(v)), real, format!("{v} | walk({f})"));
+        }
+        un(p, out, "add", "add", v);
+        un(p, out, "all0", "all", v);
+        un(p, out, "any0", "any", v);
+        for w in ["values", "nulls", "booleans", "numbers", "strings", "arrays", "objects", "iterables", "scalars"] {
+            let real = show_items(&p.run(w, v));
+            out.corr("u", format!("c12.sel {w} {}", vx::enc(v)), real, format!("{v} | {w}"));
+        }
+        let real = show_items(&p.run("combinations", v));
+        if real.len() < 4000 {
+            out.corr("c", format!("c12.combinations {}", vx::enc(v)), real, format!("{v} | combinations"));
+        }
+        // with_entries(f): the table is `f` on the real entries
+        let f = *rng.pick(ENTRY_FILTERS);
+        let es = match p.run("to_entries", v).first() {
+            Some(Item::Val(es)) => values_of(es),
+            _ => vec![],
+        };
+        let tab = fn_table(p, f, &es);
+        let real = show_one(&p.run(&format!("with_entries({f})"), v));
+        out.corr("e", format!("c12.with_entries {} {tab}", vx::enc(v)), real, format!("{v} | with_entries({f})"));
+        // paths(p): the table is `p` on every sub-value
+        let pr = *rng.pick(PATH_PREDS);
+        let subs: Vec<Val> = p.run("..", v).into_iter().filter_map(|i| if let Item::Val(x) = i { Some(x) } else { None }).collect();
+        let tab = fn_table(p, pr, &subs);
+        let real = show_items(&p.run(&format!("paths({pr})"), v));
+        out.corr("p", format!("c12.paths {} {tab}", vx::enc(v)), real, format!("{v} | paths({pr})"));
+        // delpaths: a few real paths (some repeated / reversed), sometimes a foreign one
+        let mut paths: Vec<Val> = p.run("paths", v).into_iter().filter_map(|i| if let Item::Val(x) = i { Some(x) } else { None }).collect();
+        if rng.chance(1, 2) {
+            paths.reverse();
+        }
+        let k = rng.below(4);
+        let mut sel: Vec<Val> = (0..k).filter_map(|_| if paths.is_empty() { None } else { Some(rng.pick(&paths).clone()) }).collect();
+        if rng.chance(1, 5) {
+            sel.push(arr(vec![rng.pick(&key_pool()).clone()]));
+        }
+        if rng.chance(1, 8) {
+            sel.push(arr(vec![int(rng.below(7) as isize - 3), s("a")]));
+        }
+        if rng.chance(1, 20) {
+            sel.insert(0, arr(vec![]));
+        }
+        let ps = arr(sel);
+        let real = show_items(&p.run(". as [$in, $x] | $in | delpaths($x)", &arr(vec![v.clone(), ps.clone()])));
+        out.corr("d", format!("c12.delpaths {} {}", vx::enc(v), vx::enc(&ps)), real, format!("{ps} as $x | {v} | delpaths($x)"));
+        // del(.[$k])
+        let k = if rng.chance(1, 2) { int(rng.below(9) as isize - 4) } else { rng.pick(&key_pool()).clone() };
+        let real = show_items(&p.run(". as [$in, $x] | $in | del(.[$x])", &arr(vec![v.clone(), k.clone()])));
+        out.corr("d", format!("c12.del_index {} {}", vx::enc(v), vx::enc(&k)), real, format!("{k} as $x | {v} | del(.[$x])"));
+        // has / in
+        let real = show_one(&p.run(". as [$in, $x] | $in | has($x)", &arr(vec![v.clone(), k.clone()])));
+        out.corr("h", format!("c12.has {} {}", vx::enc(v), vx::enc(&k)), real, format!("{k} as $x | {v} | has($x)"));
+        let real = show_one(&p.run(". as [$in, $x] | $in | in($x)", &arr(vec![k.clone(), v.clone()])));
+        out.corr("h", format!("c12.in {} {}", vx::enc(&k), vx::enc(v)), real, format!("{v} as $x | {k} | in($x)"));
+        // pick(f): the model gets the real `path_value(f)` pairs
+        let pf = *rng.pick(&[".a", ".[0]", ".a.b", ".[1][0]", ".a, .b", ".[]?", "..", "first", ".a?, .[0]?", ".b.c.d", "empty", ".", ".[-1]"]);
+        let pv = p.run(&format!("[path_value({pf})]"), v);
+        if let [Item::Val(pairs)] = pv.as_slice() {
+            let real = show_one(&p.run(&format!("pick({pf})"), v));
+            out.corr("q", format!("c12.pick {}", vx::enc(pairs)), real, format!("{v} | pick({pf})"));
+        }
+    }
+    // ---- join: the model gets the real `tostring` of every element
+    for _ in 0..250 * scale {
+        let k = rng.below(5);
+        let a = if rng.chance(1, 10) { gen_val(rng, 2) } else { arr((0..k).map(|_| gen_scalar(rng)).collect()) };
+        let sep = if rng.chance(1, 6) { gen_scalar(rng) } else { s([", ", "", "-", "\u{e9}"][rng.below(4)]) };
+        let tab = fn_table(p, "tostring", &values_of(&a));
+        let real = show_one(&p.run(". as [$in, $x] | $in | join($x)", &arr(vec![a.clone(), sep.clone()])));
+        out.corr("j", format!("c12.join {} {} {tab}", vx::enc(&a), vx::enc(&sep)), real, format!("{sep} as $x | {a} | join($x)"));
+    }
+    // ---- combinations on small tables, combinations($n)
+    for _ in 0..200 * scale {
+        let rows = rng.below(4);
+        let v = arr((0..rows)
+            .map(|_| {
+                let k = rng.below(3);
+                if rng.chance(1, 10) { gen_obj(rng, 0) } else if rng.chance(1, 20) { gen_scalar(rng) } else { arr((0..k).map(|_| gen_scalar(rng)).collect()) }
+            })
+            .collect());
+        let real = show_items(&p.run("combinations", &v));
+        out.corr("c", format!("c12.combinations {}", vx::enc(&v)), real, format!("{v} | combinations"));
+        let n = rng.below(4);
+        if let Some(row) = values_of(&v).first() {
+            let real = show_items(&p.run(&format!("combinations({n})"), row));
+            out.corr("c", format!("c12.combinations_n {n} {}", vx::enc(row)), real, format!("{row} | combinations({n})"));
+        }
+    }
+    // ---- splits: the regular-expression engine (`split_`) is a parameter
+    let texts = ["", "a", "Here be\tspaces", "a, b,c,  d", "aaa", "baab", "xyz", "\u{e9}a\u{e9}, \u{20ac}", "ab12cd345"];
+    let res = [", *", "a+", "\\s", "", "[0-9]+", "(", "b|c", "x*"];
+    let flags = [s(""), s("g"), s("x"), s("i"), Val::Null, int(1), s("q")];
+    let mut inputs: Vec<Val> = texts.iter().map(|t| s(t)).collect();
+    inputs.extend([int(1), Val::Null, arr(vec![s("a")]), bstr(b"a b")]);
+    for v in &inputs {
+        for re in res {
+            for fl in &flags {
+                // the native's answer where `$fl + "g"` is defined (else the model fails at the `+` itself)
+                let native = match p.run(". as [$in, $re, $fl] | $in | split_($re; try ($fl + \"g\") catch \"g\")", &arr(vec![v.clone(), s(re), fl.clone()])).as_slice() {
+                    [Item::Val(r)] => format!("V {}", vx::enc(r)),
+                    [Item::Err(e)] => format!("E {}", vx::enc(e)),
+                    _ => "E N".to_string(),
+                };
+                let real = show_items(&p.run(". as [$in, $re, $fl] | $in | splits($re; $fl)", &arr(vec![v.clone(), s(re), fl.clone()])));
+                out.corr("x", format!("c12.splits {} {} {} R {}", vx::enc(&s(re)), vx::enc(fl), vx::enc(v), native), real,
+                         format!("{v} | splits({}; {fl})", s(re)));
+            }
+        }
+    }
 }
 
 // ------------------------------------------------------------------ oracle (real library only)
@@ -725,6 +1011,8 @@ const EQNS: &[Eqn] = &[
     e("keys_unsorted = [path(.[])[]]", Dom::Any, "keys_unsorted", "[path(.[])[]]"),
     e("to_entries | from_entries = . on objects", Dom::Obj, "to_entries | from_entries", "."),
     e("with_entries(.) = . on objects", Dom::Obj, "with_entries(.)", "."),
+    e("to_entries | from_entries: every key keeps its value", Dom::Obj, ". as $in | (to_entries | from_entries) as $out | [keys_unsorted[] as $k | [$out | has($k), .[$k]]]", "[keys_unsorted[] as $k | [true, .[$k]]]"),
+    e("with_entries(.) keeps keys and their order", Dom::Obj, "with_entries(.) | keys_unsorted", "keys_unsorted"),
     e("to_entries: .[k] yields v", Dom::Iter, ". as $in | to_entries | all(.[]; . as $e | (keys == [\"key\", \"value\"]) and $in[$e.key] == $e.value) and length == ($in | length)", "true"),
     e("with_entries(f) = to_entries | map(f) | from_entries [1]", Dom::Any, "with_entries(.value |= [.])", "to_entries | map(.value |= [.]) | from_entries"),
     e("with_entries(f) = to_entries | map(f) | from_entries [2]", Dom::Any, "with_entries(select(.value != null), .)", "to_entries | map(select(.value != null), .) | from_entries"),
@@ -748,6 +1036,7 @@ const EQNS: &[Eqn] = &[
     e("map_values(f) = .[] |= f [1]", Dom::Any, "map_values([.])", ".[] |= [.]"),
     e("map_values(f) = .[] |= f [2]", Dom::Any, "map_values(select(. != null))", ".[] |= select(. != null)"),
     e("map_values(f) = map(f) on arrays", Dom::Arr, "map_values([.])", "map([.])"),
+    e("map_values(f) = map(f) on arrays, several outputs", Dom::Arr, "map_values(., [.]), map_values(select(. != null))", "map(., [.]), map(select(. != null))"),
     e("walk(f) = .. |= f", Dom::Any, "walk(if isnumber then . + 1 elif isarray then reverse else . end)", ".. |= (if isnumber then . + 1 elif isarray then reverse else . end)"),
     e("walk(f) = jq's walk [1]", Dom::Any, "walk(if isnumber then . + 1 elif isarray then reverse else . end)", "m_walk(if isnumber then . + 1 elif isarray then reverse else . end)"),
     e("walk(f) = jq's walk [2]", Dom::Any, "walk(if isobject then del(.a) else . end)", "m_walk(if isobject then del(.a) else . end)"),
@@ -809,8 +1098,12 @@ fn oracle_inputs(rng: &mut Rng, dom: Dom, n: usize) -> Vec<Val> {
         }
         Dom::Obj => {
             v.push(obj(vec![]));
-            for _ in 0..n {
-                v.push(gen_obj(rng, 2));
+            // `false` / `null` values and non-string keys (false, null, numbers, arrays, objects)
+            v.push(obj(vec![(s("a"), Val::Bool(false)), (s("b"), Val::Null), (s("c"), int(0)), (s("d"), Val::Bool(true))]));
+            v.push(obj(vec![(Val::Bool(false), int(1)), (Val::Null, int(2)), (int(0), int(3)), (arr(vec![int(1)]), int(4)), (obj(vec![]), int(5))]));
+            v.push(obj(vec![(Val::Bool(false), Val::Bool(false)), (Val::Null, Val::Null)]));
+            for i in 0..n {
+                v.push(if i % 3 == 0 { gen_obj_falsy(rng) } else { gen_obj(rng, 2) });
             }
         }
         Dom::Iter => {
@@ -964,11 +1257,162 @@ pub fn oracle(tier: &str) {
     }
 }
 
+
+// ------------------------------------------------------------------ translator: defs.jq → Lean
+
+use jaq_core::load::lex::StrPart;
+use jaq_core::load::parse::{BinaryOp, Def, Pattern, Term};
+use jaq_core::path::{Opt, Part};
+
+fn lstr(s: &str) -> String {
+    format!("\"{}\"", s.replace('\\', "\\\\").replace('"', "\\\"").replace('\n', "\\n"))
+}
+
+fn tm_list(items: Vec<String>) -> String {
+    let mut r = String::from(".nil");
+    for i in items.into_iter().rev() {
+        r = format!("(.cons {i} {r})");
+    }
+    r
+}
+
+fn tm_opt(t: &Option<Term<&str>>) -> String {
+    match t {
+        Some(t) => tm(t),
+        None => ".nil".into(),
+    }
+}
+
+fn pat(p: &Pattern<&str>) -> String {
+    match p {
+        Pattern::Var(x) => format!("(.var {})", lstr(x)),
+        Pattern::Arr(ps) => format!("(.arr {})", tm_list(ps.iter().map(pat).collect())),
+        Pattern::Obj(kps) => format!("(.obj {})", tm_list(kps.iter().map(|(k, p)| format!("(.kv {} {})", tm(k), pat(p))).collect())),
+    }
+}
+
+/// print a parsed term as a `Jaq.Coll.Tm` constructor term (total: what has no constructor is `.other <Debug>`)
+fn tm(t: &Term<&str>) -> String {
+    let other = |t: &Term<&str>| format!("(.other {})", lstr(&format!("{t:?}")));
+    match t {
+        Term::Id => ".id".into(),
+        Term::Recurse => ".dotdot".into(),
+        Term::Num(n) => format!("(.num {})", lstr(n)),
+        Term::Var(x) => format!("(.var {})", lstr(x)),
+        Term::Str(None, parts) => {
+            let ps: Vec<String> = parts
+                .iter()
+                .map(|p| match p {
+                    StrPart::Str(s) => format!("(.lit {})", lstr(s)),
+                    StrPart::Char(c) => format!("(.lit {})", lstr(&c.to_string())),
+                    StrPart::Term(t) => tm(t),
+                })
+                .collect();
+            format!("(.str {})", tm_list(ps))
+        }
+        Term::Arr(None) => "(.arr .nil)".into(),
+        Term::Arr(Some(t)) => format!("(.arr {})", tm(t)),
+        Term::Obj(kvs) => format!("(.obj {})", tm_list(kvs.iter().map(|(k, v)| format!("(.kv {} {})", tm(k), tm_opt(v))).collect())),
+        Term::Neg(t) => format!("(.neg {})", tm(t)),
+        Term::Call(name, args) => format!("(.call {} {})", lstr(name), tm_list(args.iter().map(tm).collect())),
+        Term::BinOp(l, op, r) => match op {
+            BinaryOp::Pipe(None) => format!("(.pipe {} {})", tm(l), tm(r)),
+            BinaryOp::Pipe(Some(p)) => format!("(.bind {} {} {})", tm(l), pat(p), tm(r)),
+            BinaryOp::Comma => format!("(.comma {} {})", tm(l), tm(r)),
+            BinaryOp::Alt => format!("(.bin \"alt\" {} {})", tm(l), tm(r)),
+            BinaryOp::And => format!("(.bin \"and\" {} {})", tm(l), tm(r)),
+            BinaryOp::Or => format!("(.bin \"or\" {} {})", tm(l), tm(r)),
+            BinaryOp::Math(m) => format!("(.bin {} {} {})", lstr(&format!("{m:?}")), tm(l), tm(r)),
+            BinaryOp::Cmp(c) => format!("(.bin {} {} {})", lstr(&format!("{c:?}")), tm(l), tm(r)),
+            BinaryOp::Assign => format!("(.bin \"assign\" {} {})", tm(l), tm(r)),
+            BinaryOp::Update => format!("(.bin \"update\" {} {})", tm(l), tm(r)),
+            BinaryOp::UpdateMath(m) => format!("(.bin {} {} {})", lstr(&format!("update{m:?}")), tm(l), tm(r)),
+            BinaryOp::UpdateAlt => format!("(.bin \"updatealt\" {} {})", tm(l), tm(r)),
+        },
+        Term::IfThenElse(branches, els) => {
+            // `elif` chains as nested conditionals; a missing `else` is `.nil`
+            let mut r = match els {
+                Some(e) => tm(e),
+                None => ".nil".into(),
+            };
+            for (c, t) in branches.iter().rev() {
+                r = format!("(.ite {} {} {})", tm(c), tm(t), r);
+            }
+            r
+        }
+        Term::Def(defs, rest) => {
+            let mut r = tm(rest);
+            for d in defs.iter().rev() {
+                let ps: Vec<String> = d.args.iter().map(|a| lstr(a)).collect();
+                r = format!("(.def_ {} [{}] {} {})", lstr(d.name), ps.join(", "), tm(&d.body), r);
+            }
+            r
+        }
+        Term::Fold(kind, xs, p, args) if *kind == "reduce" && args.len() == 2 => {
+            format!("(.reduce {} {} {} {})", tm(xs), pat(p), tm(&args[0]), tm(&args[1]))
+        }
+        Term::Path(head, path) => {
+            let parts: Vec<String> = path
+                .0
+                .iter()
+                .map(|(part, opt)| {
+                    let o = matches!(opt, Opt::Optional);
+                    match part {
+                        Part::Index(i) => format!("(.pidx {} {o})", tm(i)),
+                        Part::Range(a, b) => format!("(.prange {} {} {o})", tm_opt(a), tm_opt(b)),
+                    }
+                })
+                .collect();
+            format!("(.path {} {})", tm(head), tm_list(parts))
+        }
+        _ => other(t),
+    }
+}
+
+/// the definitions C12 models or whose documented equation it checks: (file, name, arity)
+const PINNED: &[(&str, &str, usize)] = &[
+    ("core", "paths", 1), ("core", "getpath", 1), ("core", "delpaths", 1), ("core", "map", 1), ("core", "map_values", 1),
+    ("core", "walk", 1), ("core", "del", 1), ("core", "join", 1), ("core", "combinations", 0), ("core", "combinations", 1),
+    ("core", "to_entries", 0), ("core", "from_entries", 0), ("core", "with_entries", 1),
+    ("core", "isempty", 1), ("core", "all", 2), ("core", "any", 2), ("core", "all", 1), ("core", "any", 1), ("core", "all", 0), ("core", "any", 0),
+    ("json", "totype", 2), ("json", "tonumber", 0), ("json", "toboolean", 0), ("json", "transpose", 0), ("json", "in", 1),
+    ("json", "inside", 1), ("json", "index", 1), ("json", "rindex", 1),
+    ("std", "isboolean", 0), ("std", "isnumber", 0), ("std", "isstring", 0), ("std", "isarray", 0), ("std", "isobject", 0),
+    ("std", "abs", 0), ("std", "type", 0), ("std", "values", 0), ("std", "nulls", 0), ("std", "booleans", 0), ("std", "numbers", 0),
+    ("std", "strings", 0), ("std", "arrays", 0), ("std", "objects", 0), ("std", "iterables", 0), ("std", "scalars", 0),
+    ("std", "add", 1), ("std", "add", 0), ("std", "min_by", 1), ("std", "max_by", 1), ("std", "min", 0), ("std", "max", 0),
+    ("std", "unique_by", 1), ("std", "unique", 0), ("std", "pick", 1), ("std", "keys", 0), ("std", "flatten", 0), ("std", "flatten", 1),
+    ("std", "split", 2), ("std", "splits", 2), ("std", "splits", 1),
+];
+
+/// `Gen/C12Defs.lean`: the pinned definitions as the real parser reads the real defs.jq files
+fn emit_defs() {
+    let files: Vec<(&str, Vec<Def<&'static str>>)> =
+        vec![("core", jaq_core::defs().collect()), ("json", jaq_json::defs().collect()), ("std", jaq_std::defs().collect())];
+    println!("/- GENERATED by `jaqverif c12 defs` from jaq-core/src/defs.jq, jaq-json/src/defs.jq and jaq-std/src/defs.jq (real parser). -/");
+    println!("import JaqVerif.C12.Ast\n\nnamespace Jaq.Coll.Gen\nopen Jaq.Coll\n");
+    println!("def defs : List DefRow := [");
+    let mut rows = vec![];
+    for (file, name, arity) in PINNED {
+        let all = &files.iter().find(|(f, _)| f == file).unwrap().1;
+        let found: Vec<&Def<&'static str>> = all.iter().filter(|d| d.name == *name && d.args.len() == *arity).collect();
+        match found.as_slice() {
+            [d] => {
+                let ps: Vec<String> = d.args.iter().map(|a| lstr(a)).collect();
+                rows.push(format!("  ({}, {}, [{}], {})", lstr(file), lstr(d.name), ps.join(", "), tm(&d.body)));
+            }
+            ds => rows.push(format!("  ({}, {}, [], .other \"{} definitions of arity {}\")", lstr(file), lstr(name), ds.len(), arity)),
+        }
+    }
+    println!("{}\n]\n\nend Jaq.Coll.Gen", rows.join(",\n"));
+}
+
 pub fn main(args: &[String]) {
     let tier = std::env::var("VERIF_TIER").unwrap_or_else(|_| "quick".into());
     match args.first().map(|s| s.as_str()) {
         Some("gen") => gen(&tier),
         Some("oracle") => oracle(&tier),
+        Some("defs") => emit_defs(),
         _ => eprintln!("c12 gen|oracle"),
     }
 }
